@@ -157,3 +157,39 @@ class TSliceDict(Type):
         if isinstance(v, dict) and not v:
             return SSliceDict(z3.K(I_, z3.BoolVal(False)), z3.K(I_, z3.IntVal(0)), z3.K(I_, z3.IntVal(0)), True)
         return v
+
+
+class STermDict(Sym):
+    """An insertion-ordered dict {term.name: term}: modelled by the ordered list of its values."""
+
+    def __init__(self, lst):
+        self.lst = lst      # SList of references
+
+    def snapshot(self, memo):
+        return STermDict(self.lst.copy())
+
+    def method(self, I, name, args, kwargs, node):
+        if name == "values":
+            return self.lst
+        raise Unsupported(f"term dict .{name}()")
+
+    def getattr(self, I, attr, node):
+        from .interp import BoundMethod
+        return BoundMethod(self, attr)
+
+    def length(self, I):
+        return SInt(self.lst.len)
+
+
+class TTermDict(Type):
+    name = "termdict"
+
+    def __init__(self, reg):
+        self.reg = reg
+
+    def fresh(self, ctx, hint):
+        from .values import TList
+        return STermDict(TList(self.reg.type("ref:Term")).fresh(ctx, hint))
+
+    def invariant(self, v):
+        return v.lst.len >= 0
